@@ -59,7 +59,7 @@ Fixpoint bk_set (d : N) (b : list node) (bs : list (N * list node)) : list (N * 
 Definition rt_add (now : Z) (t : rtable) (n : node) : rtable * bool :=
   let d := distance (rid t) (nid n) in
   if d =? 0 then (t, false)
-  else if existsb (fun kb => already_exists n (snd kb)) (rbuckets t) then (t, false)
+  else if existsb (fun kb => already_exists n (filter (fun e => negb (bytes_eqb (nid e) (nid n))) (snd kb))) (rbuckets t) then (t, false)
   else
     let b := match bk_get d (rbuckets t) with Some b => b | None => [] end in
     let '(b', r) := bucket_add now b n in
